@@ -181,8 +181,10 @@ def run(ctx):
     # the whole file is read: one read_to_end on the File itself (a Take/limited reader silently drops the tail)
     rds = [(b, t, c) for b, t, c in runf.calls() if c and re.search(r"std::io::Read>?::(read_to_end|read_exact|read|read_to_string)$", c) and runf.dominates(b, ch[0][0])]
     ctx.instance(1)
-    ok = len(rds) == 1 and rds[0][2].endswith("read_to_end") and (rds[0][1].get("arg_tys") or [""])[0].replace("&mut ", "") == "std::fs::File"
-    ctx.oblig(ok, {"object file read": [(short(c).rsplit("::", 1)[-1], (t.get("arg_tys") or [""])[0]) for b, t, c in rds]}, "read_to_end on the File")
+    whole = [b for b, t, c in runf.calls() if c == "std::fs::read" and runf.dominates(b, ch[0][0])]
+    ok = (len(rds) == 1 and rds[0][2].endswith("read_to_end") and (rds[0][1].get("arg_tys") or [""])[0].replace("&mut ", "") == "std::fs::File") \
+        or (not rds and len(whole) == 1)      # fs::read(path) returns the whole file
+    ctx.oblig(ok, {"object file read": [(short(c).rsplit("::", 1)[-1], (t.get("arg_tys") or [""])[0]) for b, t, c in rds] or ["fs::read"] * len(whole)}, "read_to_end on the File, or fs::read")
     if not ok:
         ctx.violation("partial-read", sp_file_line(rds[0][1].get("sp")) if rds else runf.file_line(),
                       "the loader reads the object file through %s: anything but one read_to_end on the file itself can drop part of it, so the size and alignment "
@@ -227,7 +229,7 @@ def run(ctx):
     for fn_, goals, cls, tag in ((runf, goal_run, classify_run, "run"), (fr_f, [b for b in fr_f.live_blocks() if fr_f.term(b)["k"] == "return"], classify_from_raw, "from_raw")):
         for b, t in diverting(fn_, goals):
             e = fn_.expr(t["a"], 8, stop={"named"}) if tag == "from_raw" else fn_.expr(t["a"], 8)
-            k = cls(e)
+            k = cls(e) or cls(fn_.expr(t["a"], 12))       # a named temporary (`let end = orig + raw.len()`) must not hide the test's shape
             ctx.instance(1)
             ctx.oblig(k is not None, None)
             if k is None:
